@@ -436,13 +436,19 @@ func c08Run(c *core.Ctx) {
 }
 
 func c08Replay(c *core.Ctx, payload json.RawMessage) {
-	if c08DialectReplay(c, payload) || c08FailedAttrReplay(c, payload) || c08LongReplay(c, payload) {
+	if c08DialectReplay(c, payload) || c08FailedAttrReplay(c, payload) || c08LongReplay(c, payload) || c08AlterCancelReplay(c, payload) {
 		return
 	}
 	var cp c08CancelPayload
 	if json.Unmarshal(payload, &cp) == nil && cp.Family == "cancel" {
+		if cp.SQL == "" {
+			// {"family": "cancel"} alone: the whole family, serially, in this process
+			fmt.Println("replaying the whole family cancel")
+			c08CancelRun(c)
+			return
+		}
 		fmt.Printf("replaying %q with the cancellation visible from poll %d on\n", cp.SQL, cp.K)
-		c08CancelOne(c, core.Scratch("c08cancel"), cp.SQL, cp.K)
+		c08CancelOne(c, core.Scratch("c08cancel"), c08CancelProgOf(cp.SQL), cp.K, cp.CPU)
 		return
 	}
 	var p c08Payload
